@@ -476,7 +476,9 @@ impl<'a> Asm<'a> {
                 self.push_small(*sel % 20); // input size
                 self.push_small(0); // input offset
                 self.push_small(*sel); // salt
-                self.push_small(0); // value
+                // endowment: mostly none, sometimes 1 wei, sometimes more than the 100 wei the contract under test owns
+                // (rejected before a frame exists)
+                self.push_small([0u8, 0, 0, 1, 200][(*sel as usize / 3) % 5]); // value
                 self.op(0xec, 4, 1);
                 self.code.push(t as u8);
                 self.used_subs[t] = true;
@@ -827,7 +829,7 @@ fn execute(bytes: &[u8], runtime_ok: bool, initcode_ok: bool, calldata: &[u8], o
     };
     if runtime_ok {
         let mut w = world.clone();
-        w.insert(pool::contract(0), r::Account { balance: r::U256::from(1000), nonce: 1, code: bytes.to_vec(), storage: Default::default() });
+        w.insert(pool::contract(0), r::Account { balance: r::U256::from(100), nonce: 1, code: bytes.to_vec(), storage: Default::default() });
         let tx = mk_tx(Some(pool::contract(0)), calldata.to_vec());
         check("run-as-code", &w, &tx, o)?;
     }
@@ -1010,6 +1012,27 @@ pub fn built_case(c: &BuiltCase) -> CaseResult {
     let bytes = assemble_container(&c.spec, 0);
     let mut o = Outcome::trivial();
     full_check(&bytes, &c.calldata, &mut o)?;
+    Ok(o)
+}
+
+/// C29 on EOF frames: the same execution, judged by the hook-pairing recorder only.
+pub fn c29_eof_case(c: &BuiltCase) -> CaseResult {
+    let bytes = assemble_container(&c.spec, 0);
+    let mut o = Outcome::trivial();
+    match full_check(&bytes, &c.calldata, &mut o) {
+        Ok(()) => {}
+        Err(fails) => {
+            let mine: Vec<Failure> = fails
+                .into_iter()
+                .filter(|f| f.sig.contains("|C29|") || f.sig.contains("handler_register"))
+                .map(|f| Failure::new(format!("C29|eof|{}", f.sig.rsplit("C29|").next().unwrap_or("")), f.msg))
+                .collect();
+            if !mine.is_empty() {
+                return Err(mine);
+            }
+        }
+    }
+    o.nontrivial = o.labels.iter().any(|l| matches!(*l, "ran:EOFCREATE" | "ran:EXTCALL" | "ran:EXTDELEGATECALL" | "ran:EXTSTATICCALL"));
     Ok(o)
 }
 
